@@ -1,4 +1,5 @@
 import Driver.Kinds.C16
+import Driver.Kinds.Audio
 import Driver.Kinds.CoreA
 import Driver.Kinds.CoreB
 import Driver.Kinds.CoreC
@@ -11,7 +12,7 @@ import Driver.Kinds.Vpx
 import Driver.Kinds.Av1
 namespace Rtp
 def allHandlers : List (String × Proto.Handler) :=
-  Kinds.C16.handlers ++ Kinds.CoreA.handlers ++ Kinds.CoreB.handlers ++ Kinds.CoreC.handlers ++ Kinds.Pktz.handlers ++ Kinds.Ext.handlers ++
+  Kinds.C16.handlers ++ Kinds.Audio.handlers ++ Kinds.CoreA.handlers ++ Kinds.CoreB.handlers ++ Kinds.CoreC.handlers ++ Kinds.Pktz.handlers ++ Kinds.Ext.handlers ++
   Kinds.Vla.handlers ++ Kinds.H264.handlers ++ Kinds.H265.handlers ++ Kinds.Vpx.handlers ++
   Kinds.Av1.handlers
 end Rtp
